@@ -35,6 +35,7 @@ package revocation
 //@     corex509.ChainInput(ch) && (forall i :: 0 <= i && i < len(ch) ==> ch[i].SerialNumber != nil) }
 
 //@ func (*revocation).ValidateContext(r, ctx, validateContextOpts)
+//@   refines (Validator).ValidateContext
 //@   props C06 C11 C12 C17
 //@   requires r != nil && r.ocspHTTPClient != nil
 //@   requires ChainReady(validateContextOpts.CertChain)
